@@ -379,14 +379,17 @@ class Batch:
             return
         try:
             out = common.run_driver(self.lines)
+            lines_all, checks_all = self.lines, self.checks
+            self.lines, self.checks = [], []
         except Exception as e:
             chans = {id(c[0]): c[0] for c in self.checks}
             for ch in chans.values():
                 ch.errors.append(f"driver: {e}")
+            self.lines, self.checks = [], []
             return
         pos = 0
-        for ch, expect, info, canon, n, grouped in self.checks:
-            lines, got = self.lines[pos:pos + n], out[pos:pos + n]
+        for ch, expect, info, canon, n, grouped in checks_all:
+            lines, got = lines_all[pos:pos + n], out[pos:pos + n]
             pos += n
             ch.evaluations += 1
             if grouped:
@@ -712,6 +715,12 @@ def run_sessions(app, cases, chs, batch, limit_s=None):
             import traceback
             traceback.print_exc()
             run.errors.append(f"correspond crashed on {case.path()} {c}: {type(e).__name__}: {e}")
+        # keep the memory bounded: segment bytes are not needed once the model's questions are queued
+        for ex in res.exchanges:
+            if ex.cls in ("media", "init"):
+                ex.data = b""
+        if len(batch.lines) > 3000:
+            batch.run()
     return results
 
 
